@@ -75,15 +75,19 @@ def blockWeight (e : Env) (pool : List Tx) (tpl : Template) : Nat :=
 def sigOpCost (e : Env) (pool : List Tx) (tpl : Template) : Nat :=
   e.cbSigCost + ((txsOf pool tpl.sel).map (·.sigCost)).sum
 
+/-- Every input of pool transaction `j` that is an output of another pool transaction (and not on
+the chain) refers to one of `earlier`. -/
+def depCheck (pool : List Tx) (j : Nat) (earlier : List Nat) : Bool :=
+  match pool[j]? with
+  | some t => t.ins.all (fun i => match i.op with
+      | OutPoint.p k _ => if i.chain.isNone then earlier.contains k else true
+      | _ => true)
+  | none => false
+
 /-- Every transaction comes after every pool transaction it spends from. -/
 def depsBefore (pool : List Tx) : List Nat → List Nat → Bool
   | [], _ => true
-  | j :: rest, earlier =>
-    (match pool[j]? with
-     | some t => t.ins.all (fun i => match i.op with
-        | OutPoint.p k _ => if i.chain.isNone then earlier.contains k else true
-        | _ => true)
-     | none => false) && depsBefore pool rest (earlier ++ [j])
+  | j :: rest, earlier => depCheck pool j earlier && depsBefore pool rest (earlier ++ [j])
 
 /-- The consensus rules a block must satisfy, as far as they concern the choice of transactions
 (`CheckConnectBlockTemplate`): valid indices, no second coinbase, no duplicates, every transaction
